@@ -62,6 +62,16 @@ def run_case(case, rec):
     pool = d.nodes + common.UNKNOWN
     nbs = [list(dict.fromkeys(pool[i % len(pool)] for i in nb)) for nb in case['nb']]
     common.check_queries(rec, 'C08.queries', d.G, d.M, d.nodes, ctx=case['cls'] + ' final', nbunches=nbs)
+    # reading is not writing: after every read accessor has been asked about instants with and without adds
+    # (the per-instant counter included; its value in this mode is not stated and not checked), ids and presence stand
+    for t in d.M.probes():
+        safe(d.G.interactions_per_snapshots, t)
+        safe(d.G.number_of_interactions, t=t)
+        safe(d.G.number_of_nodes, t)
+    ok, ids = safe(d.G.temporal_snapshots_ids)
+    rec.check('C08.ids.after_reads', ok and ids == d.M.ids(),
+              lambda: 'after read-only queries at %r: temporal_snapshots_ids() = %r, accepted add instants %r' % (d.M.probes(), ids, d.M.ids()))
+    common.check_presence(rec, 'C08.presence.after_reads', d.G, d.M, d.nodes, ctx=case['cls'] + ' after read-only queries')
     for c in d.classes:
         rec.classify(c)
     return len(d.M.orient) >= 2 and later_after_other and 'interval' in d.classes
